@@ -229,10 +229,10 @@ var badRequests = []string{"", "a..b", "A", "a.{x}", ".a", "a.", "a.-b", "b_c"}
 // none) and the unmatched suffix.
 func genRequest(t *rapid.T, frs []Flat) (string, int, []string) {
 	k := rapid.IntRange(0, 99).Draw(t, "reqkind")
-	if k < 4 {
+	if k >= 96 {
 		return pick(t, "badreq", badRequests), -1, nil
 	}
-	if k < 10 {
+	if k >= 90 {
 		n := rapid.IntRange(1, 3).Draw(t, "randn")
 		var segs []string
 		for i := 0; i < n; i++ {
@@ -257,7 +257,7 @@ func genRequest(t *rapid.T, frs []Flat) (string, int, []string) {
 		}
 		segs = append(segs, s)
 	}
-	if k < 17 {
+	if k >= 83 {
 		// one segment too many
 		return strings.Join(append(segs, pick(t, "extra", reqLits)), "."), -1, nil
 	}
@@ -274,9 +274,9 @@ func leafType(c *Case, idx int) string {
 func genSetValue(t *rapid.T, c *Case, idx int, suffix []string) interface{} {
 	v := shape(t, suffix, leafType(c, idx))
 	switch k := rapid.IntRange(0, 99).Draw(t, "valmut"); {
-	case k < 6:
+	case k >= 94:
 		return genScalar(t, "")
-	case k < 12:
+	case k >= 88:
 		if m, ok := v.(map[string]interface{}); ok {
 			m[pick(t, "extrakey", []string{"c", "k", "zz"})] = genScalar(t, "")
 		}
@@ -378,7 +378,7 @@ func GenRequests(t *rapid.T, maxOps int) Case {
 	c := GenBase(t)
 	frs := Flatten(c.Rules)
 	twoRegs := chance(t, "tworegs", 15)
-	n := rapid.IntRange(3, maxOps).Draw(t, "nops")
+	n := rapid.IntRange(6, maxOps).Draw(t, "nops")
 	for i := 0; i < n; i++ {
 		op := Op{Kind: "set", Fields: map[string]interface{}{}}
 		k := rapid.IntRange(0, 99).Draw(t, "kind")
@@ -386,7 +386,7 @@ func GenRequests(t *rapid.T, maxOps int) Case {
 		case twoRegs && k >= 85:
 			op.Reg = 1
 			op.Fields["p"] = genScalar(t, "")
-		case k < 25:
+		case k >= 65 && k < 85:
 			op.Kind = "get"
 			nf := 1
 			if chance(t, "getfields", 30) {
@@ -403,7 +403,7 @@ func GenRequests(t *rapid.T, maxOps int) Case {
 			}
 			for j := 0; j < nf; j++ {
 				req, idx, suffix := genRequest(t, frs)
-				if chance(t, "unset", 15) {
+				if chance(t, "unset", 12) {
 					op.Fields[req] = nil
 				} else {
 					op.Fields[req] = genSetValue(t, &c, idx, suffix)
